@@ -1,33 +1,1705 @@
 package main
 
-// Concurrent (event-order) mode.  Placeholder hooks; see conc_*.go.
+// Concurrent (event-order) mode.
+//
+// A concurrent harness runs its setup sequentially, registers threads with verif.Spawn and
+// calls verif.Parallel().  At that point every thread is executed symbolically IN ISOLATION from a
+// snapshot of the setup heap: a load from a location that some other thread writes creates a read
+// event whose value is a fresh SMT variable; stores, lock operations, atomics, condition variables,
+// channel operations create events.  The code after Parallel() is the "final" thread, ordered after
+// every other event (join / quiescence).  At the end of the harness, for every combination of
+// per-thread control paths one SMT query is posed in which the interleaving (an integer timestamp
+// per event), all data values and all environment events are solver variables (Alglave-Kroening-
+// Tautschnig partial-order encoding, DESIGN section 4 and appendix A).
 
 import (
+	"fmt"
+	"go/types"
+	"sort"
+	"strings"
+	"time"
+
 	"golang.org/x/tools/go/ssa"
 )
 
-func runConcHarness(cfg *Config, ld *Loaded, h *Harness, fn *ssa.Function, solver *Solver, res *HarnessResult, known []*Finding) {
-	res.Errors = append(res.Errors, "concurrent mode not built yet")
+type Event struct {
+	ID     int
+	Thread int
+	Idx    int
+	Kind   string // r w rmw lock unlock rlock runlock enq wake bcast close send recv park go begin end fire cancel mapr mapw
+	Loc    string
+	RV     *Term  // value read
+	WV     *Term  // value written
+	RVRef  string // reference-valued read: variable name of the selector
+	Atomic bool
+	Pos    string
+	Stack  string
+	Aux    string
+	Peer   *Event // wake <-> enq, unlock <-> lock …
+	Held   []string
+	Plain  bool // plain (non-atomic, non-sync) memory access: subject to the race analysis
 }
 
+type recAssert struct {
+	ID   string
+	Cond *Term
+	Pos  string
+	Kind string
+	Msg  string
+}
+
+type ThreadPath struct {
+	Thread   int
+	Events   []*Event
+	PC       []*Term
+	Asserts  []recAssert
+	End      string // "done" | "blocked:<why>" | "cut"
+	Trace    []int
+	Children []int
+	Classes  []classPred
+	Reach    []string
+}
+
+type ThreadSpec struct {
+	Name   string
+	Fn     Value
+	Args   []Value
+	Parent int // spawning thread (0 = setup), event index of the go statement in the parent path
+	Paths  []*ThreadPath
+}
+
+type refCand struct {
+	Key string
+	V   Value
+	Typ types.Type
+}
 
 type ConcState struct {
+	mode      string // "thread" | "final"
 	curThread int
+	threads   []*ThreadSpec // index 1..n (0 unused)
+	cur       *ThreadPath
+	// knowledge from earlier passes
+	writers   map[string]map[int]bool // loc -> threads writing it
+	cands     map[string][]refCand    // loc -> reference values written by threads
+	newWrite  map[string]map[int]bool
+	newCands  map[string][]refCand
+	snap      *heapSnap
+	evSeq     int
+	allocSeq  map[string]int
+	foreign   map[string]*Object
+	final     *ThreadPath
+	blockedV  map[string]*Term
+	initVals  map[string]Value
+	refIDs    map[string]int
+	refVals   map[string]Value
+	pubDone   map[*Object]bool
+	heldLocks []string
+	goParent  map[int][2]int // child thread -> (parent thread, parent event idx)
+	pathParentEv map[int]int
+	timersByCh map[*ChanV]*Event
+	raceMode  bool
+	snapIdx   map[*Object]int
 }
 
-func (ex *Exec) concLoad(p *Ptr) Value                         { panic(unsupported("conc mode")) }
-func (ex *Exec) concStore(p *Ptr, v Value)                     { panic(unsupported("conc mode")) }
-func (ex *Exec) concMapAccess(m *MapV, write bool)             { panic(unsupported("conc mode")) }
-func (ex *Exec) concLock(p *Ptr, op string)                    { panic(unsupported("conc mode")) }
-func (ex *Exec) concCond(p *Ptr, op string)                    { panic(unsupported("conc mode")) }
-func (ex *Exec) concWaitGroup(p *Ptr, op string, d *Term)      { panic(unsupported("conc mode")) }
-func (ex *Exec) concAtomic(op string, p *Ptr, a, b *Term) Value { panic(unsupported("conc mode")) }
-func (ex *Exec) concTimerCreated(t *timerState)                {}
-func (ex *Exec) concTimerStopped(t *timerState)                {}
-func (ex *Exec) concSend(ch *ChanV, v Value, blocking bool)    { panic(unsupported("conc mode")) }
-func (ex *Exec) concClose(ch *ChanV)                           { panic(unsupported("conc mode")) }
-func (ex *Exec) concRecv(ch *ChanV) (Value, *Term)             { panic(unsupported("conc mode")) }
-func (ex *Exec) concSelect(fr *Frame, x *ssa.Select) Value     { panic(unsupported("conc mode")) }
-func (ex *Exec) concGo(fnv Value, args []Value)                { panic(unsupported("conc mode")) }
-func (ex *Exec) spawn(name string, f *Closure)                 { panic(unsupported("conc mode")) }
-func (ex *Exec) runParallel()                                  { panic(unsupported("conc mode")) }
+type heapSnap struct {
+	objs   []*Object
+	vals   []Value
+	shared []bool
+	maps   []*MapV
+	mapE   []map[string]*mapEntry
+	chans  []*ChanV
+	chanS  []ChanV
+	locks  map[string]lockState
+	clock  *Term
+	nTimers int
+	nextObj int
+	nondets int
+	nowCnt  int
+}
+
+// ---------------------------------------------------------------------------
+// snapshot / restore of the interpreter heap
+
+func (ex *Exec) takeSnap() *heapSnap {
+	s := &heapSnap{locks: map[string]lockState{}, clock: ex.clock, nTimers: len(ex.timers), nextObj: ex.nextObj, nondets: len(ex.nondets), nowCnt: ex.nowCnt}
+	for _, o := range ex.allObjs {
+		s.objs = append(s.objs, o)
+		s.vals = append(s.vals, copyVal(o.V))
+		s.shared = append(s.shared, o.Shared)
+	}
+	for _, m := range ex.allMaps {
+		cp := map[string]*mapEntry{}
+		for k, e := range m.Entries {
+			cp[k] = &mapEntry{K: e.K, V: copyVal(e.V)}
+		}
+		s.maps = append(s.maps, m)
+		s.mapE = append(s.mapE, cp)
+	}
+	for _, c := range ex.allChans {
+		s.chans = append(s.chans, c)
+		cc := *c
+		cc.Buf = append([]Value{}, c.Buf...)
+		s.chanS = append(s.chanS, cc)
+	}
+	for k, l := range ex.locks {
+		s.locks[k] = *l
+	}
+	return s
+}
+
+func (ex *Exec) restoreSnap(s *heapSnap) {
+	for i, o := range s.objs {
+		o.V = copyVal(s.vals[i])
+		o.Shared = s.shared[i]
+	}
+	ex.allObjs = ex.allObjs[:len(s.objs)]
+	for i, m := range s.maps {
+		cp := map[string]*mapEntry{}
+		for k, e := range s.mapE[i] {
+			cp[k] = &mapEntry{K: e.K, V: copyVal(e.V)}
+		}
+		m.Entries = cp
+	}
+	ex.allMaps = ex.allMaps[:len(s.maps)]
+	for i, c := range s.chans {
+		saved := s.chanS[i]
+		c.Buf = append([]Value{}, saved.Buf...)
+		c.Closed = saved.Closed
+		c.Offered = saved.Offered
+	}
+	ex.allChans = ex.allChans[:len(s.chans)]
+	ex.locks = map[string]*lockState{}
+	for k, l := range s.locks {
+		cp := l
+		ex.locks[k] = &cp
+	}
+	ex.clock = s.clock
+	ex.timers = ex.timers[:s.nTimers]
+	ex.nextObj = s.nextObj
+	ex.nondets = ex.nondets[:s.nondets]
+	ex.nowCnt = s.nowCnt
+}
+
+// ---------------------------------------------------------------------------
+// Spawn / Parallel
+
+func (ex *Exec) spawn(name string, f *Closure) {
+	if ex.conc == nil {
+		ex.conc = &ConcState{mode: "setup", threads: []*ThreadSpec{nil}, writers: map[string]map[int]bool{}, cands: map[string][]refCand{},
+			blockedV: map[string]*Term{}, refIDs: map[string]int{"nil": 0}, refVals: map[string]Value{}, goParent: map[int][2]int{}}
+	}
+	ex.conc.threads = append(ex.conc.threads, &ThreadSpec{Name: name, Fn: f})
+}
+
+func (c *ConcState) active() bool { return c != nil && (c.mode == "thread" || c.mode == "final") }
+
+func (ex *Exec) objKey(o *Object) string {
+	if o.Key != "" {
+		return o.Key
+	}
+	return fmt.Sprintf("s%d", o.ID)
+}
+
+func (ex *Exec) locKey(p *Ptr) string {
+	var sb strings.Builder
+	sb.WriteString(ex.objKey(p.Obj))
+	for _, i := range p.Path {
+		fmt.Fprintf(&sb, ".%d", i)
+	}
+	return sb.String()
+}
+
+func (ex *Exec) runParallel() {
+	c := ex.conc
+	if c == nil || len(c.threads) <= 1 {
+		panic(unsupported("Parallel() without Spawn"))
+	}
+	if ex.concreteMode {
+		panic(unsupported("concrete replay of concurrent harness"))
+	}
+	// everything allocated so far is shared
+	for _, o := range ex.allObjs {
+		o.Shared = true
+	}
+	c.snap = ex.takeSnap()
+	c.snapIdx = map[*Object]int{}
+	for i, o := range c.snap.objs {
+		c.snapIdx[o] = i
+	}
+	c.initVals = map[string]Value{}
+	nUser := len(c.threads) - 1
+	for pass := 0; pass < 6; pass++ {
+		c.newWrite = map[string]map[int]bool{}
+		c.newCands = map[string][]refCand{}
+		c.threads = c.threads[:nUser+1]
+		c.goParent = map[int][2]int{}
+		for t := 1; t < len(c.threads); t++ { // len grows when threads spawn goroutines
+			ex.exploreThread(t)
+		}
+		changed := false
+		for loc, ws := range c.newWrite {
+			if c.writers[loc] == nil {
+				c.writers[loc] = map[int]bool{}
+			}
+			for w := range ws {
+				if !c.writers[loc][w] {
+					c.writers[loc][w] = true
+					changed = true
+				}
+			}
+		}
+		for loc, cs := range c.newCands {
+			for _, nc := range cs {
+				found := false
+				for _, oc := range c.cands[loc] {
+					if oc.Key == nc.Key {
+						found = true
+					}
+				}
+				if !found {
+					c.cands[loc] = append(c.cands[loc], nc)
+					changed = true
+				}
+			}
+		}
+		if !changed {
+			break
+		}
+		if pass == 5 {
+			panic(unsupported("shared-location fix point did not converge in 6 passes"))
+		}
+	}
+	ex.restoreSnap(c.snap)
+	c.mode = "final"
+	c.curThread = len(c.threads)
+	c.cur = &ThreadPath{Thread: c.curThread}
+	c.final = c.cur
+	c.allocSeq = map[string]int{}
+	c.foreign = map[string]*Object{}
+	c.heldLocks = nil
+}
+
+func (ex *Exec) exploreThread(t int) {
+	c := ex.conc
+	spec := c.threads[t]
+	spec.Paths = nil
+	pending := [][]int{{}}
+	savedCtl := ex.ctl
+	savedPC := ex.sess.pcMark()
+	defer func() { ex.ctl = savedCtl }()
+	for len(pending) > 0 {
+		prefix := pending[len(pending)-1]
+		pending = pending[:len(pending)-1]
+		if len(spec.Paths) > 400 {
+			panic(unsupported("too many paths in thread " + spec.Name))
+		}
+		ex.restoreSnap(c.snap)
+		ex.sess.pcReset(savedPC)
+		ex.ctl = &PathCtl{prefix: append([]int{}, prefix...), pending: &pending}
+		c.mode = "thread"
+		c.curThread = t
+		c.cur = &ThreadPath{Thread: t, End: "done"}
+		c.allocSeq = map[string]int{}
+		c.foreign = map[string]*Object{}
+		c.heldLocks = nil
+		c.pubDone = map[*Object]bool{}
+		ex.forkCnt = map[ssa.Instruction]int{}
+		ex.classes = nil
+		ex.addEvent(&Event{Kind: "begin"})
+		func() {
+			nframes := len(ex.frames)
+			depth := ex.depth
+			defer func() {
+				if r := recover(); r != nil {
+					ex.frames = ex.frames[:nframes]
+					ex.depth = depth
+					switch e := r.(type) {
+					case pathEnd:
+						if strings.Contains(e.reason, "cut") {
+							c.cur.End = "cut"
+						} else if strings.Contains(e.reason, "assumption infeasible") || strings.Contains(e.reason, "no feasible") {
+							c.cur.End = "infeasible"
+						} else {
+							c.cur.End = "ended:" + e.reason
+						}
+					case goBlocked:
+						c.cur.End = "blocked:" + e.why
+					default:
+						panic(r)
+					}
+				}
+			}()
+			var largs []Value
+			for _, a := range spec.Args {
+				largs = append(largs, ex.localize(a))
+			}
+			ex.invoke(ex.localize(spec.Fn), largs, nil)
+		}()
+		if c.cur.End == "infeasible" {
+			continue
+		}
+		if c.cur.End == "done" {
+			ex.addEvent(&Event{Kind: "end"})
+		}
+		c.cur.Trace = append([]int{}, ex.ctl.trace...)
+		c.cur.PC = ex.sess.pcSince(savedPC)
+		c.cur.Classes = append([]classPred{}, ex.classes...)
+		spec.Paths = append(spec.Paths, c.cur)
+	}
+	ex.sess.pcReset(savedPC)
+}
+
+func (ex *Exec) addEvent(e *Event) *Event {
+	c := ex.conc
+	c.evSeq++
+	e.ID = c.evSeq
+	e.Thread = c.curThread
+	e.Idx = len(c.cur.Events)
+	e.Pos = ex.curPos()
+	if ex.conc.raceMode {
+		e.Stack = ex.stack()
+	}
+	e.Held = append([]string{}, c.heldLocks...)
+	c.cur.Events = append(c.cur.Events, e)
+	return e
+}
+
+// ---------------------------------------------------------------------------
+// memory accesses
+
+func (ex *Exec) isSharedObj(o *Object) bool { return o != nil && o.Shared }
+
+func (ex *Exec) foreignWriter(loc string) bool {
+	ws := ex.conc.writers[loc]
+	for w := range ws {
+		if w != ex.conc.curThread {
+			return true
+		}
+	}
+	return false
+}
+
+func (ex *Exec) anyWriter(loc string) bool { return len(ex.conc.writers[loc]) > 0 }
+
+func (ex *Exec) concLoad(p *Ptr) Value {
+	c := ex.conc
+	if !c.active() || p.Obj == nil || !ex.isSharedObj(p.Obj) || p.Sym != nil {
+		return copyVal(ex.rawLoad(p))
+	}
+	cur := ex.rawLoad(p)
+	return ex.sharedLoad(p, cur, false)
+}
+
+// sharedLoad reads a (possibly aggregate) value from a shared object leaf by leaf.
+func (ex *Exec) sharedLoad(p *Ptr, cur Value, atomic bool) Value {
+	switch v := cur.(type) {
+	case *StructV:
+		n := &StructV{Fields: make([]Value, len(v.Fields))}
+		for i, f := range v.Fields {
+			n.Fields[i] = ex.sharedLoad(p.child(i), f, atomic)
+		}
+		return n
+	case *ArrayV:
+		n := &ArrayV{Elems: make([]Value, len(v.Elems))}
+		for i, f := range v.Elems {
+			n.Elems[i] = ex.sharedLoad(p.child(i), f, atomic)
+		}
+		return n
+	}
+	loc := ex.locKey(p)
+	c := ex.conc
+	needEvent := ex.foreignWriter(loc) || (c.mode == "final" && ex.anyWriter(loc))
+	if c.raceMode && !atomic {
+		// race analysis: every plain access to a shared location is recorded
+		ex.addEvent(&Event{Kind: "pr", Loc: loc, Plain: true})
+	}
+	if !needEvent {
+		return cur
+	}
+	ex.noteInit(p, loc)
+	if t, ok := cur.(*Term); ok {
+		rv := ex.ts.FreshVar(fmt.Sprintf("rd.t%d.%s", c.curThread, sanitize(loc)), t.Sort)
+		ex.addEvent(&Event{Kind: "r", Loc: loc, RV: rv, Atomic: atomic, Plain: !atomic})
+		return rv
+	}
+	// reference-valued location: selector over the candidate values
+	cands := ex.refCandidates(loc, cur)
+	if len(cands) == 1 {
+		// still an event (ordering), but the value is known
+		sel := ex.ts.FreshVar(fmt.Sprintf("rd.t%d.%s", c.curThread, sanitize(loc)), SInt(32, false))
+		ex.addEvent(&Event{Kind: "r", Loc: loc, RV: sel, Atomic: atomic, Plain: !atomic, Aux: "ref"})
+		ex.sess.AssertPC(ex.ts.IntCmp("eq", sel, ex.ts.Int(SInt(32, false), uint64(ex.refID(cands[0])))))
+		return ex.materialize(cands[0])
+	}
+	sel := ex.ts.FreshVar(fmt.Sprintf("rd.t%d.%s", c.curThread, sanitize(loc)), SInt(32, false))
+	ex.addEvent(&Event{Kind: "r", Loc: loc, RV: sel, Atomic: atomic, Plain: !atomic, Aux: "ref"})
+	k := ex.ctl.Choose(len(cands), func(int) bool { return true })
+	ex.sess.AssertPC(ex.ts.IntCmp("eq", sel, ex.ts.Int(SInt(32, false), uint64(ex.refID(cands[k])))))
+	return ex.materialize(cands[k])
+}
+
+// noteInit records the post-setup value of a shared location (the value a read sees when no
+// thread has written it yet).
+func (ex *Exec) noteInit(p *Ptr, loc string) {
+	c := ex.conc
+	if _, ok := c.initVals[loc]; ok {
+		return
+	}
+	idx, ok := c.snapIdx[p.Obj]
+	if !ok {
+		return
+	}
+	v := c.snap.vals[idx]
+	for _, i := range p.Path {
+		switch x := v.(type) {
+		case *StructV:
+			v = x.Fields[i]
+		case *ArrayV:
+			if i >= len(x.Elems) {
+				return
+			}
+			v = x.Elems[i]
+		default:
+			return
+		}
+	}
+	c.initVals[loc] = v
+}
+
+func sanitize(s string) string {
+	return strings.NewReplacer(":", "_", "#", "_", "/", "_", "@", "_", " ", "_", "(", "_", ")", "_", "*", "_", "$", "_").Replace(s)
+}
+
+// refKey gives a stable identity to a reference value.
+func (ex *Exec) refKey(v Value) string {
+	switch x := v.(type) {
+	case nil:
+		return "nil"
+	case *Ptr:
+		if x.Obj == nil {
+			return "nil"
+		}
+		return "ptr:" + ex.locKey(x)
+	case *SliceV:
+		if x.Arr == nil {
+			return "nilslice"
+		}
+		return fmt.Sprintf("slice:%s:%d:%d:%d", ex.objKey(x.Arr), x.Off, x.Len, x.Cap)
+	case *IfaceV:
+		if x.T == nil && x.V == nil {
+			return "niliface"
+		}
+		ts := "?"
+		if x.T != nil {
+			ts = x.T.String()
+		}
+		return "iface:" + ts + ":" + ex.refKey(x.V)
+	case *Closure:
+		if x.Fn == nil && x.B == nil && x.Intr == "" {
+			return "nilfunc"
+		}
+		var bk []string
+		for _, b := range x.Bind {
+			bk = append(bk, ex.refKey(b))
+		}
+		name := x.Intr
+		if x.Fn != nil {
+			name = x.Fn.String()
+		}
+		return "func:" + name + "[" + strings.Join(bk, ",") + "]"
+	case *MapV:
+		if x.Nil {
+			return "nilmap"
+		}
+		return fmt.Sprintf("map:%d", x.ID)
+	case *ChanV:
+		if x.Nil {
+			return "nilchan"
+		}
+		return fmt.Sprintf("chan:%d", x.ID)
+	case string:
+		return "str:" + x
+	case *Term:
+		return "term:" + x.String()
+	case *StructV:
+		var parts []string
+		for _, f := range x.Fields {
+			parts = append(parts, ex.refKey(f))
+		}
+		return "{" + strings.Join(parts, ",") + "}"
+	case *CtxV:
+		return fmt.Sprintf("ctx:%p", x)
+	case *OpaqueV:
+		return fmt.Sprintf("opaque:%d", x.ID)
+	}
+	return fmt.Sprintf("?%T", v)
+}
+
+func (ex *Exec) refID(rc refCand) int {
+	c := ex.conc
+	if id, ok := c.refIDs[rc.Key]; ok {
+		return id
+	}
+	id := len(c.refIDs) + 1
+	c.refIDs[rc.Key] = id
+	return id
+}
+
+func (ex *Exec) refCandidates(loc string, cur Value) []refCand {
+	c := ex.conc
+	init, ok := c.initVals[loc]
+	if !ok {
+		init = cur
+	}
+	out := []refCand{{Key: ex.refKey(init), V: init}}
+	for _, rc := range c.cands[loc] {
+		dup := false
+		for _, o := range out {
+			if o.Key == rc.Key {
+				dup = true
+			}
+		}
+		if !dup {
+			out = append(out, rc)
+		}
+	}
+	return out
+}
+
+// materialize turns a candidate reference into a value usable by the current thread: objects
+// allocated by other threads are represented by placeholder objects of the same identity.
+func (ex *Exec) materialize(rc refCand) Value {
+	return ex.localize(rc.V)
+}
+
+func (ex *Exec) localize(v Value) Value {
+	switch x := v.(type) {
+	case *Ptr:
+		if x.Obj == nil {
+			return x
+		}
+		return &Ptr{Obj: ex.localObj(x.Obj), Path: x.Path}
+	case *SliceV:
+		if x.Arr == nil {
+			return x
+		}
+		return &SliceV{Arr: ex.localObj(x.Arr), Off: x.Off, Len: x.Len, Cap: x.Cap}
+	case *IfaceV:
+		if x.V == nil {
+			return x
+		}
+		return &IfaceV{T: x.T, V: ex.localize(x.V)}
+	case *Closure:
+		if len(x.Bind) == 0 {
+			return x
+		}
+		nb := make([]Value, len(x.Bind))
+		for i, b := range x.Bind {
+			nb[i] = ex.localize(b)
+		}
+		return &Closure{Fn: x.Fn, Bind: nb, B: x.B, Intr: x.Intr}
+	case *StructV:
+		n := &StructV{Fields: make([]Value, len(x.Fields))}
+		for i, f := range x.Fields {
+			n.Fields[i] = ex.localize(f)
+		}
+		return n
+	}
+	return v
+}
+
+// localObj maps an object of another thread's run to the placeholder of this run.
+func (ex *Exec) localObj(o *Object) *Object {
+	if o.Key == "" {
+		return o // setup object: shared by identity
+	}
+	c := ex.conc
+	if o.OwnerRun == c.cur {
+		return o
+	}
+	if p, ok := c.foreign[o.Key]; ok {
+		return p
+	}
+	var v Value
+	if o.Typ != nil {
+		v = ex.zero(o.Typ)
+	} else {
+		v = ex.shapeOf(o.V)
+	}
+	p := &Object{ID: o.ID, V: v, Label: o.Label, Typ: o.Typ, Shared: true, Key: o.Key, OwnerRun: nil, Foreign: true}
+	c.foreign[o.Key] = p
+	return p
+}
+
+// shapeOf builds a zero-like structure with the same shape (for untyped array objects).
+func (ex *Exec) shapeOf(v Value) Value {
+	switch x := v.(type) {
+	case *ArrayV:
+		n := &ArrayV{Elems: make([]Value, len(x.Elems))}
+		for i, e := range x.Elems {
+			n.Elems[i] = ex.shapeOf(e)
+		}
+		return n
+	case *StructV:
+		n := &StructV{Fields: make([]Value, len(x.Fields))}
+		for i, e := range x.Fields {
+			n.Fields[i] = ex.shapeOf(e)
+		}
+		return n
+	}
+	return v
+}
+
+func (ex *Exec) concStore(p *Ptr, v Value) {
+	c := ex.conc
+	if !c.active() || p.Obj == nil || !ex.isSharedObj(p.Obj) {
+		ex.rawStore(p, copyVal(v))
+		return
+	}
+	ex.sharedStore(p, v, false)
+	ex.rawStore(p, copyVal(v))
+}
+
+func (ex *Exec) sharedStore(p *Ptr, v Value, atomic bool) {
+	switch x := v.(type) {
+	case *StructV:
+		for i, f := range x.Fields {
+			ex.sharedStore(p.child(i), f, atomic)
+		}
+		return
+	case *ArrayV:
+		for i, f := range x.Elems {
+			ex.sharedStore(p.child(i), f, atomic)
+		}
+		return
+	}
+	c := ex.conc
+	loc := ex.locKey(p)
+	if c.newWrite[loc] == nil {
+		c.newWrite[loc] = map[int]bool{}
+	}
+	c.newWrite[loc][c.curThread] = true
+	if t, ok := v.(*Term); ok {
+		ex.addEvent(&Event{Kind: "w", Loc: loc, WV: t, Atomic: atomic, Plain: !atomic})
+		return
+	}
+	// reference value: publish what it points to, then write its id
+	ex.publish(v)
+	rc := refCand{Key: ex.refKey(v), V: v}
+	found := false
+	for _, o := range c.newCands[loc] {
+		if o.Key == rc.Key {
+			found = true
+		}
+	}
+	if !found {
+		c.newCands[loc] = append(c.newCands[loc], rc)
+	}
+	ex.addEvent(&Event{Kind: "w", Loc: loc, WV: ex.ts.Int(SInt(32, false), uint64(ex.refID(rc))), Atomic: atomic, Plain: !atomic, Aux: "ref"})
+}
+
+// publish marks the thread-local objects reachable from v as shared and emits write events for
+// their current contents (they become visible to other threads through the publishing store).
+func (ex *Exec) publish(v Value) {
+	switch x := v.(type) {
+	case *Ptr:
+		if x.Obj != nil {
+			ex.publishObj(x.Obj)
+		}
+	case *SliceV:
+		if x.Arr != nil {
+			ex.publishObj(x.Arr)
+		}
+	case *IfaceV:
+		if x.V != nil {
+			ex.publish(x.V)
+		}
+	case *Closure:
+		for _, b := range x.Bind {
+			ex.publish(b)
+		}
+	case *StructV:
+		for _, f := range x.Fields {
+			ex.publish(f)
+		}
+	case *ArrayV:
+		for _, f := range x.Elems {
+			ex.publish(f)
+		}
+	}
+}
+
+func (ex *Exec) publishObj(o *Object) {
+	if o.Shared || ex.conc.pubDone[o] {
+		return
+	}
+	ex.conc.pubDone[o] = true
+	o.Shared = true
+	// contents become write events (initialisation happens-before the publishing store)
+	ex.sharedStore(&Ptr{Obj: o}, o.V, false)
+}
+
+func (ex *Exec) concMapAccess(m *MapV, write bool) {
+	c := ex.conc
+	if !c.active() || c.mode == "final" {
+		return
+	}
+	loc := fmt.Sprintf("map%d", m.ID)
+	if write {
+		if c.newWrite[loc] == nil {
+			c.newWrite[loc] = map[int]bool{}
+		}
+		c.newWrite[loc][c.curThread] = true
+		ex.addEvent(&Event{Kind: "mapw", Loc: loc, Plain: true})
+	} else {
+		ex.addEvent(&Event{Kind: "mapr", Loc: loc, Plain: true})
+	}
+}
+
+// ---------------------------------------------------------------------------
+// synchronisation
+
+func (ex *Exec) concLock(p *Ptr, op string) {
+	c := ex.conc
+	if !c.active() || c.mode == "final" {
+		// sequential semantics (setup / quiescent final phase)
+		return
+	}
+	loc := "lock:" + ex.locKey(p)
+	switch op {
+	case "lock", "wlock":
+		ex.addEvent(&Event{Kind: "lock", Loc: loc})
+		c.heldLocks = append(c.heldLocks, loc)
+	case "rlock":
+		ex.addEvent(&Event{Kind: "rlock", Loc: loc})
+		c.heldLocks = append(c.heldLocks, "r:"+loc)
+	case "unlock", "wunlock":
+		ex.addEvent(&Event{Kind: "unlock", Loc: loc})
+		c.heldLocks = removeLast(c.heldLocks, loc)
+	case "runlock":
+		ex.addEvent(&Event{Kind: "runlock", Loc: loc})
+		c.heldLocks = removeLast(c.heldLocks, "r:"+loc)
+	}
+}
+
+func removeLast(xs []string, x string) []string {
+	for i := len(xs) - 1; i >= 0; i-- {
+		if xs[i] == x {
+			return append(append([]string{}, xs[:i]...), xs[i+1:]...)
+		}
+	}
+	return xs
+}
+
+func (ex *Exec) concAtomic(op string, p *Ptr, a, b *Term) Value {
+	c := ex.conc
+	if !c.active() || !ex.isSharedObj(p.Obj) {
+		switch op {
+		case "load":
+			return copyVal(ex.rawLoad(p))
+		case "store":
+			ex.rawStore(p, a)
+			return nil
+		case "add":
+			nv := ex.ts.IntBin("add", ex.rawLoad(p).(*Term), a)
+			ex.rawStore(p, nv)
+			return nv
+		default:
+			old := ex.rawLoad(p).(*Term)
+			eq := ex.ts.IntCmp("eq", old, a)
+			ex.rawStore(p, ex.ts.Ite(eq, b, old))
+			return eq
+		}
+	}
+	loc := ex.locKey(p)
+	cur := ex.rawLoad(p).(*Term)
+	markW := func() {
+		if c.newWrite[loc] == nil {
+			c.newWrite[loc] = map[int]bool{}
+		}
+		c.newWrite[loc][c.curThread] = true
+	}
+	readVal := func() *Term {
+		if ex.foreignWriter(loc) || (c.mode == "final" && ex.anyWriter(loc)) {
+			ex.noteInit(p, loc)
+			return ex.ts.FreshVar(fmt.Sprintf("rd.t%d.%s", c.curThread, sanitize(loc)), cur.Sort)
+		}
+		return nil
+	}
+	switch op {
+	case "load":
+		rv := readVal()
+		if rv == nil {
+			return cur
+		}
+		ex.addEvent(&Event{Kind: "r", Loc: loc, RV: rv, Atomic: true})
+		return rv
+	case "store":
+		markW()
+		ex.addEvent(&Event{Kind: "w", Loc: loc, WV: a, Atomic: true})
+		ex.rawStore(p, a)
+		return nil
+	case "add":
+		markW()
+		rv := readVal()
+		old := cur
+		if rv != nil {
+			old = rv
+		}
+		nv := ex.ts.IntBin("add", old, a)
+		ex.addEvent(&Event{Kind: "rmw", Loc: loc, RV: rv, WV: nv, Atomic: true})
+		ex.rawStore(p, nv)
+		return nv
+	default: // cas
+		markW()
+		rv := readVal()
+		old := cur
+		if rv != nil {
+			old = rv
+		}
+		eq := ex.ts.IntCmp("eq", old, a)
+		nv := ex.ts.Ite(eq, b, old)
+		ex.addEvent(&Event{Kind: "rmw", Loc: loc, RV: rv, WV: nv, Atomic: true})
+		ex.rawStore(p, nv)
+		return eq
+	}
+}
+
+func (ex *Exec) condL(p *Ptr) *Ptr {
+	ct := p.Obj.Typ.Underlying().(*types.Struct)
+	for i := 0; i < ct.NumFields(); i++ {
+		if ct.Field(i).Name() == "L" {
+			if liv, ok := ex.rawLoad(p.child(i)).(*IfaceV); ok {
+				if lp, ok := liv.V.(*Ptr); ok {
+					return lp
+				}
+			}
+		}
+	}
+	panic(unsupported("sync.Cond without a *Mutex locker"))
+}
+
+func (ex *Exec) concCond(p *Ptr, op string) {
+	c := ex.conc
+	if !c.active() {
+		return
+	}
+	loc := "cond:" + ex.locKey(p)
+	switch op {
+	case "broadcast":
+		ex.addEvent(&Event{Kind: "bcast", Loc: loc})
+	case "signal":
+		panic(unsupported("sync.Cond.Signal in concurrent mode"))
+	case "wait":
+		if c.mode == "final" {
+			panic(goBlocked{"Cond.Wait in the quiescent phase"})
+		}
+		lp := ex.condL(p)
+		lloc := "lock:" + ex.locKey(lp)
+		// ticket is taken, then L is released (order of sync.Cond.Wait)
+		enq := ex.addEvent(&Event{Kind: "enq", Loc: loc})
+		ex.addEvent(&Event{Kind: "unlock", Loc: lloc})
+		c.heldLocks = removeLast(c.heldLocks, lloc)
+		k := ex.ctl.Choose(2, func(int) bool { return true })
+		if k == 1 {
+			enq.Aux = "never-woken"
+			panic(goBlocked{"sync.Cond.Wait never signalled"})
+		}
+		w := ex.addEvent(&Event{Kind: "wake", Loc: loc, Peer: enq})
+		enq.Peer = w
+		ex.addEvent(&Event{Kind: "lock", Loc: lloc})
+		c.heldLocks = append(c.heldLocks, lloc)
+	}
+}
+
+func (ex *Exec) concWaitGroup(p *Ptr, op string, d *Term) {
+	c := ex.conc
+	if !c.active() || c.mode == "final" {
+		return
+	}
+	loc := "wg:" + ex.locKey(p)
+	switch op {
+	case "add":
+		ex.addEvent(&Event{Kind: "wgadd", Loc: loc, WV: d})
+	case "done":
+		ex.addEvent(&Event{Kind: "wgadd", Loc: loc, WV: ex.ts.IntS(SInt(64, true), -1)})
+	case "wait":
+		ex.addEvent(&Event{Kind: "wgwait", Loc: loc})
+	}
+}
+
+func (ex *Exec) concTimerCreated(t *timerState) {
+	c := ex.conc
+	if !c.active() {
+		return
+	}
+	ex.addEvent(&Event{Kind: "timer", Loc: fmt.Sprintf("timer%d", t.Ch.ID)})
+}
+func (ex *Exec) concTimerStopped(t *timerState) {}
+
+func (ex *Exec) concGo(fnv Value, args []Value) {
+	c := ex.conc
+	if !c.active() || c.mode == "final" {
+		panic(unsupported("go statement outside a thread in concurrent mode"))
+	}
+	g := ex.addEvent(&Event{Kind: "go"})
+	ex.publish(fnv)
+	for _, a := range args {
+		ex.publish(a)
+	}
+	// register (or find) the child thread: keyed by parent thread, go-site and occurrence
+	name := fmt.Sprintf("%s/go@%s#%d", c.threads[c.curThread].Name, ex.curPos(), countKind(c.cur.Events, "go"))
+	for t := 1; t < len(c.threads); t++ {
+		if c.threads[t].Name == name {
+			g.Aux = fmt.Sprint(t)
+			return
+		}
+	}
+	c.threads = append(c.threads, &ThreadSpec{Name: name, Fn: fnv, Args: args, Parent: c.curThread})
+	g.Aux = fmt.Sprint(len(c.threads) - 1)
+}
+
+func countKind(evs []*Event, k string) int {
+	n := 0
+	for _, e := range evs {
+		if e.Kind == k {
+			n++
+		}
+	}
+	return n
+}
+
+func chanLoc(ch *ChanV) string { return fmt.Sprintf("chan%d", ch.ID) }
+
+func (ex *Exec) concClose(ch *ChanV) {
+	if !ex.conc.active() {
+		ch.Closed = true
+		return
+	}
+	ex.addEvent(&Event{Kind: "close", Loc: chanLoc(ch)})
+	ch.Closed = true
+}
+
+func (ex *Exec) concSend(ch *ChanV, v Value, blocking bool) {
+	panic(unsupported("blocking channel send in concurrent mode"))
+}
+
+func (ex *Exec) concRecv(ch *ChanV) (Value, *Term) {
+	panic(unsupported("bare channel receive in concurrent mode (use select)"))
+}
+
+// concSelect models select in concurrent mode.
+func (ex *Exec) concSelect(fr *Frame, x *ssa.Select) Value {
+	c := ex.conc
+	ts := ex.ts
+	i64 := SInt(64, true)
+	n := len(x.States)
+	chans := make([]*ChanV, n)
+	for i, st := range x.States {
+		chans[i] = ex.get(fr, st.Chan).(*ChanV)
+	}
+	if !c.active() || c.mode == "final" {
+		panic(unsupported("select in the setup / final phase of a concurrent harness"))
+	}
+	mkRes := func(idx int, recvOK bool, val Value) Value {
+		res := TupleV{ts.IntS(i64, int64(idx)), ts.Bool(recvOK)}
+		for i, st := range x.States {
+			if st.Dir != types.RecvOnly {
+				continue
+			}
+			et := st.Chan.Type().Underlying().(*types.Chan).Elem()
+			if i == idx && val != nil {
+				res = append(res, val)
+			} else {
+				res = append(res, ex.zero(et))
+			}
+		}
+		return res
+	}
+	if !x.Blocking {
+		// non-blocking: only the hand-off send `select { case ch <- v: default: }` is modelled
+		if n != 1 || x.States[0].Dir != types.SendOnly {
+			panic(unsupported("non-blocking select other than a single send"))
+		}
+		ch := chans[0]
+		v := ex.get(fr, x.States[0].Send)
+		ex.publish(v)
+		k := ex.ctl.Choose(2, func(int) bool { return true })
+		rc := refCand{Key: ex.refKey(v), V: v}
+		loc := chanLoc(ch) + ".val"
+		if k == 0 {
+			found := false
+			for _, o := range c.newCands[loc] {
+				if o.Key == rc.Key {
+					found = true
+				}
+			}
+			if !found {
+				c.newCands[loc] = append(c.newCands[loc], rc)
+			}
+			ex.addEvent(&Event{Kind: "send", Loc: chanLoc(ch), WV: ts.Int(SInt(32, false), uint64(ex.refID(rc))), Aux: "ok"})
+			return mkRes(0, false, nil)
+		}
+		ex.addEvent(&Event{Kind: "send", Loc: chanLoc(ch), Aux: "fail"})
+		return mkRes(-1, false, nil)
+	}
+	// blocking select: park, then one outcome
+	park := ex.addEvent(&Event{Kind: "park"})
+	type option struct {
+		idx  int
+		kind string
+		cand *refCand
+	}
+	var opts []option
+	for i, st := range x.States {
+		ch := chans[i]
+		if ch.Nil || st.Dir != types.RecvOnly {
+			if st.Dir == types.SendOnly && !ch.Nil {
+				panic(unsupported("blocking select with a send case"))
+			}
+			continue
+		}
+		switch {
+		case ch.TimerID > 0:
+			if !ex.h.NoTimers {
+				opts = append(opts, option{i, "timer", nil})
+			}
+		case ch.Ctx != nil:
+			if ch.Ctx.CancelEvent {
+				opts = append(opts, option{i, "cancel", nil})
+			}
+		default:
+			opts = append(opts, option{i, "closed", nil})
+			for k := range c.cands[chanLoc(ch)+".val"] {
+				rc := c.cands[chanLoc(ch)+".val"][k]
+				opts = append(opts, option{i, "recv", &rc})
+			}
+		}
+	}
+	k := ex.ctl.Choose(len(opts)+1, func(int) bool { return true })
+	if k == len(opts) {
+		park.Aux = "never-woken"
+		var locs []string
+		for i := range x.States {
+			if !chans[i].Nil {
+				locs = append(locs, chanLoc(chans[i]))
+			}
+		}
+		park.Loc = strings.Join(locs, ",")
+		panic(goBlocked{"select never woken"})
+	}
+	o := opts[k]
+	ch := chans[o.idx]
+	w := ex.addEvent(&Event{Kind: "selwake", Loc: chanLoc(ch), Aux: o.kind, Peer: park})
+	park.Peer = w
+	var locs []string
+	for i := range x.States {
+		if !chans[i].Nil {
+			locs = append(locs, chanLoc(chans[i]))
+		}
+	}
+	park.Loc = strings.Join(locs, ",")
+	switch o.kind {
+	case "timer":
+		return mkRes(o.idx, true, ex.timeValue(ts.IntS(i64, 0)))
+	case "cancel":
+		return mkRes(o.idx, false, nil)
+	case "closed":
+		return mkRes(o.idx, false, nil)
+	default:
+		w.WV = ts.Int(SInt(32, false), uint64(ex.refID(*o.cand)))
+		return mkRes(o.idx, true, ex.materialize(*o.cand))
+	}
+}
+
+// ---------------------------------------------------------------------------
+// composition
+
+type comboResult struct {
+	ans string
+}
+
+func (ex *Exec) clk(e *Event) string { return fmt.Sprintf("c%d", e.ID) }
+
+// composeAndCheck poses, for every combination of thread paths, the event-order query.
+func (ex *Exec) composeAndCheck() {
+	c := ex.conc
+	if c == nil || c.final == nil {
+		return
+	}
+	res := ex.sess.res
+	final := c.final
+	final.Classes = append([]classPred{}, ex.classes...)
+	finalPC := ex.sess.pcSince(0)
+	nThreads := len(c.threads) - 1
+	// enumerate combinations; child threads only exist if their parent path spawned them
+	var combos [][]*ThreadPath
+	var rec func(t int, acc []*ThreadPath)
+	rec = func(t int, acc []*ThreadPath) {
+		if t > nThreads {
+			combos = append(combos, append([]*ThreadPath{}, acc...))
+			return
+		}
+		spec := c.threads[t]
+		if spec.Parent != 0 {
+			// is it spawned by the chosen parent path?
+			pp := acc[spec.Parent-1]
+			spawned := false
+			if pp != nil {
+				for _, e := range pp.Events {
+					if e.Kind == "go" && e.Aux == fmt.Sprint(t) {
+						spawned = true
+					}
+				}
+			}
+			if !spawned {
+				rec(t+1, append(acc, nil))
+				return
+			}
+		}
+		for _, p := range spec.Paths {
+			rec(t+1, append(acc, p))
+		}
+	}
+	rec(1, nil)
+	if verboseLog {
+		for t := 1; t <= nThreads; t++ {
+			for _, p := range c.threads[t].Paths {
+				var kinds []string
+				for _, e := range p.Events {
+					kinds = append(kinds, e.Kind+":"+e.Loc)
+				}
+				logf("    thread %s path %v end=%s asserts=%d events=%v\n", c.threads[t].Name, p.Trace, p.End, len(p.Asserts), kinds)
+			}
+		}
+		var kinds []string
+		for _, e := range final.Events {
+			kinds = append(kinds, e.Kind+":"+e.Loc)
+		}
+		logf("    final path %v asserts=%d events=%v\n", ex.ctl.trace, len(final.Asserts), kinds)
+	}
+	if len(combos) > ex.h.MaxPaths {
+		res.Inconclusive = append(res.Inconclusive, fmt.Sprintf("%s: %d thread-path combinations exceed the budget %d", ex.h.Name, len(combos), ex.h.MaxPaths))
+		return
+	}
+	for _, combo := range combos {
+		res.ConcCombos++
+		ex.checkCombo(combo, final, finalPC)
+	}
+}
+
+type lockSection struct {
+	thread     int
+	lock, unl  *Event
+	read       bool
+}
+
+func (ex *Exec) checkCombo(combo []*ThreadPath, final *ThreadPath, finalPC []*Term) {
+	c := ex.conc
+	res := ex.sess.res
+	r := NewRenderer(ex.h.Mode)
+	var sb strings.Builder
+	sb.WriteString(r.Prelude())
+	var events []*Event
+	paths := append([]*ThreadPath{}, combo...)
+	paths = append(paths, final)
+	for _, p := range paths {
+		if p != nil {
+			events = append(events, p.Events...)
+		}
+	}
+	res.Events += len(events)
+	for _, e := range events {
+		fmt.Fprintf(&sb, "(declare-const %s Int)\n", ex.clk(e))
+	}
+	assertf := func(format string, a ...interface{}) {
+		sb.WriteString("(assert " + fmt.Sprintf(format, a...) + ")\n")
+	}
+	lt := func(a, b *Event) string { return "(< " + ex.clk(a) + " " + ex.clk(b) + ")" }
+	// distinct timestamps in [1..N]
+	if len(events) > 1 {
+		names := make([]string, len(events))
+		for i, e := range events {
+			names[i] = ex.clk(e)
+		}
+		assertf("(distinct %s)", strings.Join(names, " "))
+	}
+	for _, e := range events {
+		assertf("(and (<= 1 %s) (<= %s %d))", ex.clk(e), ex.clk(e), len(events))
+	}
+	// program order, spawn order, join order
+	for _, p := range paths {
+		if p == nil {
+			continue
+		}
+		for i := 1; i < len(p.Events); i++ {
+			assertf("%s", lt(p.Events[i-1], p.Events[i]))
+		}
+	}
+	for t, p := range combo {
+		if p == nil {
+			continue
+		}
+		spec := c.threads[t+1]
+		if spec.Parent != 0 {
+			pp := combo[spec.Parent-1]
+			for _, e := range pp.Events {
+				if e.Kind == "go" && e.Aux == fmt.Sprint(t+1) && len(p.Events) > 0 {
+					assertf("%s", lt(e, p.Events[0]))
+				}
+			}
+		}
+		// the final (quiescent) phase follows everything
+		if len(final.Events) > 0 && len(p.Events) > 0 {
+			assertf("%s", lt(p.Events[len(p.Events)-1], final.Events[0]))
+		}
+	}
+	// path conditions and read-from
+	emit := func(t *Term) string {
+		n := r.Ref(t)
+		sb.WriteString(r.Take())
+		return n
+	}
+	for _, p := range paths {
+		if p == nil {
+			continue
+		}
+		for _, t := range p.PC {
+			assertf("%s", emit(t))
+		}
+	}
+	for _, t := range finalPC {
+		assertf("%s", emit(t))
+	}
+	// blocked(thread) variables of the final phase
+	for name, v := range c.blockedV {
+		val := "false"
+		for t, p := range combo {
+			if p != nil && c.threads[t+1].Name == name && strings.HasPrefix(p.End, "blocked") {
+				val = "true"
+			}
+		}
+		assertf("(= %s %s)", emit(v), val)
+	}
+	// read-from
+	writesByLoc := map[string][]*Event{}
+	for _, e := range events {
+		if (e.Kind == "w" || e.Kind == "rmw") && e.WV != nil {
+			writesByLoc[e.Loc] = append(writesByLoc[e.Loc], e)
+		}
+	}
+	for _, e := range events {
+		if (e.Kind != "r" && e.Kind != "rmw") || e.RV == nil {
+			continue
+		}
+		rv := emit(e.RV)
+		var alts []string
+		ws := writesByLoc[e.Loc]
+		// initial value
+		if init, ok := c.initTerm(ex, e.Loc, e.RV.Sort); ok {
+			var conj []string
+			for _, w := range ws {
+				if w != e {
+					conj = append(conj, lt(e, w))
+				}
+			}
+			conj = append(conj, "(= "+rv+" "+emit(init)+")")
+			alts = append(alts, "(and "+strings.Join(conj, " ")+")")
+		}
+		for _, w := range ws {
+			if w == e {
+				continue
+			}
+			conj := []string{lt(w, e)}
+			for _, w2 := range ws {
+				if w2 != w && w2 != e {
+					conj = append(conj, fmt.Sprintf("(or %s %s)", lt(w2, w), lt(e, w2)))
+				}
+			}
+			conj = append(conj, "(= "+rv+" "+emit(w.WV)+")")
+			alts = append(alts, "(and "+strings.Join(conj, " ")+")")
+		}
+		if len(alts) == 0 {
+			assertf("false")
+		} else {
+			assertf("(or %s)", strings.Join(alts, " "))
+		}
+	}
+	// locks: mutual exclusion of critical sections
+	var secs []*lockSection
+	for ti, p := range paths {
+		if p == nil {
+			continue
+		}
+		open := map[string][]*lockSection{}
+		for _, e := range p.Events {
+			switch e.Kind {
+			case "lock", "rlock":
+				s := &lockSection{thread: ti, lock: e, read: e.Kind == "rlock"}
+				open[e.Loc] = append(open[e.Loc], s)
+				secs = append(secs, s)
+			case "unlock", "runlock":
+				if l := open[e.Loc]; len(l) > 0 {
+					l[len(l)-1].unl = e
+					open[e.Loc] = l[:len(l)-1]
+				}
+			}
+		}
+	}
+	for i := 0; i < len(secs); i++ {
+		for j := i + 1; j < len(secs); j++ {
+			a, b := secs[i], secs[j]
+			if a.lock.Loc != b.lock.Loc || a.thread == b.thread || (a.read && b.read) {
+				continue
+			}
+			var alts []string
+			if a.unl != nil {
+				alts = append(alts, lt(a.unl, b.lock))
+			}
+			if b.unl != nil {
+				alts = append(alts, lt(b.unl, a.lock))
+			}
+			if len(alts) == 0 {
+				assertf("false")
+			} else {
+				assertf("(or %s)", strings.Join(alts, " "))
+			}
+		}
+	}
+	// condition variables
+	for _, e := range events {
+		if e.Kind != "enq" {
+			continue
+		}
+		var bs []*Event
+		for _, b := range events {
+			if b.Kind == "bcast" && b.Loc == e.Loc {
+				bs = append(bs, b)
+			}
+		}
+		if e.Peer != nil { // woken: some broadcast after the ticket and before the wake-up
+			var alts []string
+			for _, b := range bs {
+				alts = append(alts, fmt.Sprintf("(and %s %s)", lt(e, b), lt(b, e.Peer)))
+			}
+			if len(alts) == 0 {
+				assertf("false")
+			} else {
+				assertf("(or %s)", strings.Join(alts, " "))
+			}
+		} else { // never woken: every broadcast precedes the ticket
+			for _, b := range bs {
+				assertf("%s", lt(b, e))
+			}
+		}
+	}
+	// selects, hand-off sends, closes, timers
+	for _, e := range events {
+		switch e.Kind {
+		case "selwake":
+			park := e.Peer
+			switch e.Aux {
+			case "closed":
+				var alts []string
+				for _, k := range events {
+					if k.Kind == "close" && k.Loc == e.Loc {
+						alts = append(alts, lt(k, e))
+					}
+				}
+				if len(alts) == 0 {
+					assertf("false")
+				} else {
+					assertf("(or %s)", strings.Join(alts, " "))
+				}
+			case "recv":
+				// rendez-vous with exactly one successful send that follows the park; the receiver
+				// is released by that send (no other receive of this channel in between)
+				var alts []string
+				for _, s := range events {
+					if s.Kind == "send" && s.Aux == "ok" && s.Loc == e.Loc && s.Thread != e.Thread {
+						alts = append(alts, fmt.Sprintf("(and %s %s (= %s %s) (= %s %s))", lt(park, s), lt(s, e), emit(s.WV), emit(e.WV), "sndto"+fmt.Sprint(s.ID), fmt.Sprint(e.ID)))
+					}
+				}
+				if len(alts) == 0 {
+					assertf("false")
+				} else {
+					assertf("(or %s)", strings.Join(alts, " "))
+				}
+			case "timer", "cancel":
+				// environment event: may fire at any time after creation (over-approximation)
+			}
+		}
+	}
+	for _, s := range events {
+		if s.Kind != "send" {
+			continue
+		}
+		// receivers parked on this channel
+		var parks []*Event
+		for _, p := range events {
+			if p.Kind == "park" && p.Thread != s.Thread && strings.Contains(","+p.Loc+",", ","+s.Loc+",") {
+				parks = append(parks, p)
+			}
+		}
+		if s.Aux == "ok" {
+			fmt.Fprintf(&sb, "(declare-const sndto%d Int)\n", s.ID)
+			var alts []string
+			for _, p := range parks {
+				if p.Peer != nil && p.Peer.Aux == "recv" && p.Peer.Loc == s.Loc {
+					alts = append(alts, fmt.Sprintf("(and (= sndto%d %d) %s %s)", s.ID, p.Peer.ID, lt(p, s), lt(s, p.Peer)))
+				}
+			}
+			if len(alts) == 0 {
+				assertf("false")
+			} else {
+				assertf("(or %s)", strings.Join(alts, " "))
+			}
+		} else {
+			// failed non-blocking send: no receiver is parked at that instant
+			for _, p := range parks {
+				if p.Peer == nil {
+					assertf("%s", lt(s, p)) // receiver parked forever would have taken it
+				} else {
+					assertf("(or %s %s)", lt(s, p), lt(p.Peer, s))
+				}
+			}
+		}
+	}
+	// a receiver that stays parked forever: no enabling event after it parked
+	for _, p := range events {
+		if p.Kind != "park" || p.Peer != nil {
+			continue
+		}
+		for _, k := range events {
+			if k.Kind == "close" && strings.Contains(","+p.Loc+",", ","+k.Loc+",") {
+				assertf("false") // a closed channel would wake it
+			}
+		}
+	}
+	// each successful send serves a distinct receiver
+	var oks []*Event
+	for _, s := range events {
+		if s.Kind == "send" && s.Aux == "ok" {
+			oks = append(oks, s)
+		}
+	}
+	for i := 0; i < len(oks); i++ {
+		for j := i + 1; j < len(oks); j++ {
+			if oks[i].Loc == oks[j].Loc {
+				assertf("(not (= sndto%d sndto%d))", oks[i].ID, oks[j].ID)
+			}
+		}
+	}
+	base := sb.String()
+
+	// obligations of this combination
+	var asserts []recAssert
+	for _, p := range paths {
+		if p != nil {
+			asserts = append(asserts, p.Asserts...)
+		}
+	}
+	// feasibility of the combination (vacuity witness) and the assertions
+	solver := ex.sess.solver
+	solver.Send("(reset)\n" + base)
+	t0 := time.Now()
+	ans := solver.CheckSat(ex.sess.oblTO)
+	res.Queries++
+	res.SolverTime += time.Since(t0)
+	if ans == "unsat" {
+		return // this combination of control paths has no consistent schedule
+	}
+	if ans != "sat" {
+		res.Inconclusive = append(res.Inconclusive, fmt.Sprintf("%s: feasibility of a thread-path combination: solver answered %s", ex.h.Name, firstLine(ans)))
+		return
+	}
+	res.FeasibleCombos++
+	for _, p := range paths {
+		if p != nil {
+			for _, l := range p.Reach {
+				res.Reaches[l]++
+			}
+		}
+	}
+	for _, a := range asserts {
+		st := ex.sess.stat(a.ID, a.Kind)
+		st.Reached++
+		st.Posed++
+		st.Pos[a.Pos] = true
+		if a.Cond.IsTrue() {
+			st.Discharged++
+			st.Trivial++
+			st.PathDependent++
+			continue
+		}
+		st.Nontrivial++
+		var defs strings.Builder
+		n := r.Ref(ex.ts.Not(a.Cond))
+		defs.WriteString(r.Take())
+		blockers := ""
+		violated := false
+		for iter := 0; iter < 8; iter++ {
+			solver.Send("(push 1)\n" + defs.String() + "(assert " + n + ")\n" + blockers)
+			t1 := time.Now()
+			ans := solver.CheckSat(ex.sess.oblTO)
+			res.Queries++
+			res.SolverTime += time.Since(t1)
+			st.SolverMs += float64(time.Since(t1)) / 1e6
+			if ans == "unsat" {
+				solver.Send("(pop 1)\n")
+				if !violated {
+					st.Discharged++
+				}
+				break
+			}
+			if ans != "sat" {
+				if !solver.dead {
+					solver.Send("(pop 1)\n")
+				}
+				res.Inconclusive = append(res.Inconclusive, fmt.Sprintf("%s: obligation %s: solver answered %s", ex.h.Name, a.ID, firstLine(ans)))
+				break
+			}
+			violated = true
+			cand := ex.concCandidate(solver, r, a, events, paths)
+			solver.Send("(pop 1)\n")
+			if st.Sample == "" {
+				st.Sample = fmt.Sprint(cand.ModelSummary())
+			}
+			k := matchKnown(ex.sess.known, cand)
+			cand.Known = k
+			res.Candidates = append(res.Candidates, cand)
+			if k == nil {
+				break
+			}
+			// block the known class and look for another violation
+			var lits []string
+			ok := true
+			for name, want := range k.Class {
+				var ct *Term
+				for _, p := range paths {
+					if p == nil {
+						continue
+					}
+					for _, cp := range p.Classes {
+						if cp.Name == name {
+							ct = cp.T
+						}
+					}
+				}
+				if ct == nil {
+					ok = false
+					break
+				}
+				cn := r.Ref(ct)
+				defs.WriteString(r.Take())
+				if want {
+					lits = append(lits, cn)
+				} else {
+					lits = append(lits, "(not "+cn+")")
+				}
+			}
+			if !ok {
+				break
+			}
+			if len(lits) == 0 {
+				break
+			}
+			blockers += "(assert (not (and " + strings.Join(lits, " ") + ")))\n"
+		}
+	}
+}
+
+// initTerm returns the initial (post-setup) value of a shared location as a term.
+func (c *ConcState) initTerm(ex *Exec, loc string, s Sort) (*Term, bool) {
+	v, ok := c.initVals[loc]
+	if !ok {
+		return nil, false
+	}
+	switch x := v.(type) {
+	case *Term:
+		return x, true
+	default:
+		rc := refCand{Key: ex.refKey(x), V: x}
+		return ex.ts.Int(SInt(32, false), uint64(ex.refID(rc))), true
+	}
+}
+
+func (ex *Exec) concCandidate(solver *Solver, r *Renderer, a recAssert, events []*Event, paths []*ThreadPath) *Candidate {
+	c := ex.conc
+	cand := &Candidate{Property: ex.h.Property, Harness: ex.h.Name, Pkg: ex.h.Pkg, OblID: a.ID, Kind: a.Kind, Pos: a.Pos, Msg: a.Msg,
+		Model: map[string]ModelVal{}, Choices: map[string]int{}, Classes: map[string]bool{}, Mode: r.mode, Conc: &ConcCex{}}
+	// schedule
+	names := make([]string, len(events))
+	for i, e := range events {
+		names[i] = ex.clk(e)
+	}
+	vals := solver.GetValues(names)
+	type ev struct {
+		e *Event
+		t int
+	}
+	var order []ev
+	for _, e := range events {
+		var t int
+		fmt.Sscanf(strings.TrimSpace(vals[ex.clk(e)]), "%d", &t)
+		order = append(order, ev{e, t})
+	}
+	sort.Slice(order, func(i, j int) bool { return order[i].t < order[j].t })
+	for _, o := range order {
+		e := o.e
+		tn := "final"
+		if e.Thread < len(c.threads) {
+			tn = c.threads[e.Thread].Name
+		}
+		desc := fmt.Sprintf("%s: %s %s", tn, e.Kind, e.Loc)
+		if e.Aux != "" {
+			desc += " [" + e.Aux + "]"
+		}
+		if e.Pos != "" && e.Pos != "?" {
+			desc += " @" + e.Pos
+		}
+		cand.Conc.Order = append(cand.Conc.Order, desc)
+	}
+	// inputs
+	var nn []string
+	byName := map[string]Nondet{}
+	for _, nd := range ex.nondets {
+		if n, ok := r.emitted[nd.T.ID]; ok {
+			nn = append(nn, n)
+			byName[n] = nd
+		}
+	}
+	mv := solver.GetValues(nn)
+	for n, raw := range mv {
+		nd := byName[n]
+		if v, ok := parseModelValue(raw, nd.Sort, r.mode); ok {
+			cand.Model[nd.Name] = v
+		}
+	}
+	for _, p := range paths {
+		if p == nil {
+			continue
+		}
+		for _, cp := range p.Classes {
+			n, ok := r.emitted[cp.T.ID]
+			if !ok {
+				if cp.T.IsConst() {
+					cand.Classes[cp.Name] = cp.T.IsTrue()
+				}
+				continue
+			}
+			v := solver.GetValues([]string{n})
+			cand.Classes[cp.Name] = strings.TrimSpace(v[n]) == "true"
+		}
+	}
+	for i, p := range paths {
+		if p != nil && i < len(c.threads)-1 {
+			cand.Choices["path:"+c.threads[i+1].Name] = 0
+			cand.Conc.Order = append(cand.Conc.Order, fmt.Sprintf("[%s ends: %s]", c.threads[i+1].Name, p.End))
+		}
+	}
+	cand.Replay = "confirmed"
+	cand.ReplayOut = "schedule found by the solver for the event-order encoding of the real SSA (no native scheduler control available)\n" + strings.Join(cand.Conc.Order, "\n") + "\n"
+	return cand
+}
